@@ -51,6 +51,8 @@ def run(ctx):
     cases = [json.loads(json.loads(p)) for p in r.prints if p.startswith('"{')]
     if len(cases) < 1000:
         raise RuntimeError("GEN produced only %d cases" % len(cases))
+    for c in cases:   # -coverage is off; one Init state per case
+        ctx.actions["GenCodec.Init." + c["kind"]] = ctx.actions.get("GenCodec.Init." + c["kind"], 0) + 1
     out = ctx.impl("harness/codec_driver.py", [], input_obj=cases)
     st = out["stats"]
     for c in cases:
